@@ -68,6 +68,10 @@ def main():
         def script(qn, proto, nth, q):
             if qn.startswith("ok"):
                 return [("reply", dnslib.build_reply(q, answers=[(qn, 1, 0, bytes([10, 1, 1, 1]))]), 0)]
+            if qn.startswith("mixttl"):
+                # well-formed, but its additional record lives one second while the answer lives a minute
+                return [("reply", dnslib.build_reply(q, answers=[(qn, 1, 60, bytes([10, 1, 1, 3]))], authority=[(qn, 2, 30, dnslib.enc_name("ns." + qn))],
+                                                     additional=[("ns." + qn, 1, 1, bytes([10, 1, 1, 4]))]), 0)]
             if qn.startswith("slow"):
                 # a well-formed reply, merely very late (12 s): longer than any patience a forwarder may have
                 return [("reply", dnslib.build_reply(q, answers=[(qn, 1, 0, bytes([10, 1, 1, 2]))]), 12.0)] if nth == 0 else [("drop",)]
@@ -192,9 +196,25 @@ def main():
             note_panics("dns", batch)
             health("dns", "mixed", b // 50)
         us.close()
+        # a reply whose records have very different lifetimes, asked again after the shortest one ran out
+        for k_ in range(3):
+            dnslib.udp_query(("127.0.0.53", 53), dnslib.build_query(90 + k_, "mixttl%d.c05.test" % k_, edns=1232), timeout=4.0)
         # two queries whose (well-formed) upstream replies take 12 s, with nothing else going on
         for t_ in slow_threads:
             t_.start()
+        time.sleep(2.3)
+        mix_ok = 0
+        for k_ in range(3):
+            rs_ = dnslib.udp_query(("127.0.0.53", 53), dnslib.build_query(95 + k_, "mixttl%d.c05.test" % k_, edns=1232), timeout=4.0)
+            mix_ok += 1 if rs_ and dnslib.parse(rs_[0][0]).rcode == 0 else 0
+            r_, err_ = dnslib.tcp_query(("127.0.0.53", 53), dnslib.build_query(98 + k_, "mixttl%d.c05.test" % k_, edns=1232), timeout=4.0)
+            mix_ok += 1 if r_ is not None and dnslib.parse(r_).rcode == 0 else 0
+        leg.eval()
+        leg.cls("dns|repeat-after-shortest-ttl|%s" % ("answered" if mix_ok == 6 else "unanswered"))
+        note_panics("dns", [{"how": "repeat of a question whose reply had records of very different lifetimes", "hex": ""}])
+        if mix_ok < 6:
+            leg.violation("C05/valid-request-unanswered-after-hostile-input/dns", "%d of 6 repeated questions answered 2.3 s after replies with a 1 s additional record" % mix_ok,
+                          {"engine": "c05-e2e", "service": "dns", "input_kind": "repeat-after-shortest-ttl"})
         for t_ in slow_threads:
             t_.join(timeout=40)
         time.sleep(2.5)
